@@ -193,6 +193,14 @@ def worker(spec):
             self.style = style
             self.kids = kids
             self.partner = None
+            # stack items are arbitrary objects: some are falsy (an empty container-like item)
+            W.count += 1
+            self.falsy = W.count % 4 == 0
+
+        count = 0
+
+        def __bool__(self):
+            return not self.falsy
 
         def __repr__(self):
             return "W%s(%s)" % (self.style, ",".join(rep(k) for k in self.kids))
@@ -200,6 +208,9 @@ def worker(spec):
     class Leaf(object):
         def __init__(self, n):
             self.n = n
+
+        def __len__(self):
+            return 0   # a falsy irreducible leaf
 
         def __repr__(self):
             return "L%d" % self.n
